@@ -6,7 +6,7 @@ use crate::hist_enc::{self, EProfile};
 use encoding_rs::*;
 use std::time::Instant;
 
-pub const RULE: &str = "case = encoder history as in C04, plus every scalar value alone and embedded as 'a X b' / 'U+3042 X U+3042' for the multi-byte and stateful encoders; oracle = round trip with per-prefix invariants: after every call the accumulated bytes are accepted without error by a fresh no-BOM decoder of the output encoding, has_pending_state() equals 'the last escape in the accumulated ISO-2022-JP bytes is not ESC ( B' (false for other encodings), after the final InputEmpty the ISO-2022-JP stream is in ASCII, and decoding the complete output equals the input with each unmappable replaced by its NCR text and with the Standard's fixed folding set applied (typed in from the Standard). Non-trivial = non-ASCII text with at least two calls; distinct = distinct history.";
+pub const RULE: &str = "case = encoder history as in C04, plus every scalar value alone and embedded as 'a X b' / 'U+3042 X U+3042' for the multi-byte and stateful encoders; oracle = round trip with per-prefix invariants: after every call the accumulated bytes are accepted without error by a fresh no-BOM decoder of the output encoding, has_pending_state() equals 'the last escape in the accumulated ISO-2022-JP bytes is not ESC ( B' (false for other encodings), after the final InputEmpty the ISO-2022-JP stream is in ASCII, and decoding the complete output equals the input with each unmappable replaced by its NCR text and with the Standard's fixed folding set applied (typed in from the Standard). A further family uses capacities BELOW the size that guarantees progress (the per-call invariants are unconditional; a history that stops making progress simply ends). Non-trivial = non-ASCII text with at least two calls; distinct = distinct history.";
 
 fn check<'a>(ctx: &Ctx) -> EncCheck<'a> {
     EncCheck {
@@ -63,9 +63,64 @@ fn scalar_sweep(ctx: &Ctx) -> Stats {
     st
 }
 
+/// Capacities below the size that guarantees progress (0..3 bytes raw, 0..13 with replacement),
+/// alone and for the closing call only: the per-call invariants of the property are not
+/// conditional on the buffer size.  A history that stops making progress simply ends (that is the
+/// documented consequence of an undersized buffer, not a violation).
+fn undersized_family(ctx: &Ctx) -> Stats {
+    let encs = ench::encoder_encodings();
+    let mut st = par_run(ctx, encs.len(), |part, st| {
+        let enc = encs[part];
+        let mut sc = EScratch::new();
+        let alpha = hist_enc::alphabet(enc);
+        let mut texts: Vec<Vec<u32>> = vec![vec![]];
+        for &a in &alpha {
+            texts.push(vec![a]);
+            for &b in &alpha {
+                texts.push(vec![a, b]);
+            }
+        }
+        for text in &texts {
+            if fw::should_stop() {
+                return;
+            }
+            for src in [Src::Utf8, Src::Utf16] {
+                for repl in [false, true] {
+                    let tiny: Vec<usize> = if repl { vec![0, 9, 10, 11, 12, 13] } else { vec![0, 1, 2, 3] };
+                    for &t in &tiny {
+                        for caps in [vec![t], vec![64, t], vec![t, 64]] {
+                            for cuts in [vec![], vec![1], vec![text.len()]] {
+                                for last_on_empty in [false, true] {
+                                    let mut h = EncHistory::simple(enc, src, repl, text);
+                                    h.caps = caps.clone();
+                                    h.cuts = cuts.clone();
+                                    h.last_on_empty = last_on_empty;
+                                    h.undersized_ok = true;
+                                    h.normalize();
+                                    st.evals += 1;
+                                    st.class("undersized-capacity-history");
+                                    if let Some((msg, sig)) = ench::verdict_c12(&h, &mut sc, st, true) {
+                                        st.violations.push(Violation { msg: format!("{}: {}", crate::drive_enc::describe(&h), msg), sig, case: h.to_json() });
+                                        return;
+                                    }
+                                }
+                            }
+                        }
+                    }
+                }
+            }
+        }
+    });
+    st.exhaustive.push("undersized capacities: all texts of up to 2 alphabet characters x {0..3 bytes raw, 0/9..13 bytes with replacement} alone, for the first call only and for the later calls only x cuts x last on data/empty call".into());
+    st
+}
+
 pub fn run(ctx: &Ctx) -> i32 {
     let t0 = Instant::now();
     let mut st = scalar_sweep(ctx);
+    if !fw::should_stop() {
+        st.merge(undersized_family(ctx));
+    }
     if !fw::should_stop() {
         let c = check(ctx);
         st.merge(ench::run_enc_check(ctx, &c));
